@@ -18,8 +18,12 @@ ja == <<12354, 97>>                                           \* "あa": あ is 
 zh == <<20013, 20013, 97>>                                    \* "中中a": 中 is 3 bytes in UTF-8, 2 in every CJK page
 
 \* which characters a code page can represent (the model's tiny repertoire)
-Rep(cp, c) == \/ c < 128 \/ (c = 233 /\ cp \in {65001, 1252}) \/ (c = 12354 /\ cp \in {65001, 932})
+\* (facts of the reference encoder; bin/check compares this table with `mv repr` on every run)
+Rep(cp, c) == \/ c < 128
+              \/ (c = 233   /\ cp \in {65001, 1252, 936})
+              \/ (c = 12354 /\ cp \in {65001, 932, 936, 949, 950, 951})
               \/ (c = 20013 /\ cp \in {65001, 932, 936, 949, 950, 951})
+RepFacts == [cp \in {65001, 1252, 932, 936, 949, 950, 951, 20127} |-> [c \in {233, 12354, 20013} |-> Rep(cp, c)]]
 Representable(cp, s) == \A k \in 1..Len(s) : Rep(cp, s[k])
 \* what a string reads back as after being written in code page cp ('?' where not representable)
 EncDec(cp, s) == [k \in 1..Len(s) |-> IF Rep(cp, s[k]) THEN s[k] ELSE 63]
